@@ -22,6 +22,26 @@ CHECKS = {
                   'differential oracle against serial twin'),
 }
 
+CHECKS['C05'] = dict(
+    level='exploration', ref='DESIGN.md 6 (C05)',
+    text='Seeded generation of operation histories (fresh / mixed / repeated batches, scalar queries, sweeps over four '
+         'generators, real SciPy and NLopt optimisers through the scalar bridge), serial and under simulated worker '
+         'schedules; a shadow model fed from the objective\'s own call log decides call counts, state, cost/vector '
+         'pairing, sign and rounding of the signed costs and the feasibility marker order after every operation. '
+         'Sampling of histories, not proof.',
+    note='objective owned by the harness and recomputed by the oracle; failures off; default evaluator only; joblib stubbed.',
+    technique=TECH + ': seeded operation histories + schedule search, shadow-model oracle over the call log')
+CHECKS['C06'] = dict(
+    level='fault_enumeration', ref='DESIGN.md 6 (C06)',
+    text='The fault space of one design (156 outcome patterns of at most five attempts: transient Timeout/Runtime failures, '
+         'success, three kinds of non-transient exception) is enumerated completely, serially and with two simulated '
+         'workers; batches of 2-8 designs and whole NSGA-II / eps-MOEA / swarm runs then sample one pattern per design '
+         'under seeded schedules. The oracle derives the exact expected attempts, failed list, re-sampling, final '
+         'costs and the exception the caller must see from the plan.',
+    note='complete for single-design patterns, sampled for combinations across designs and schedules; PRNG extremes off; '
+         'a replacement equal to the failed vector is accepted only for coarse-precision parameters when new draws were consumed.',
+    technique=TECH + ': exhaustive enumeration of per-design failure patterns + seeded sampling of pattern combinations and schedules')
+
 NOT_BUILT = 'claimed in DESIGN.md; its check is not part of this commit yet'
 NA = {
     'C12': 'pure single-call functions (bounds, N, one PRNG vector) -> matrix; nothing is scheduled, retried, shared or '
